@@ -46,6 +46,8 @@ type RaftOpts struct {
 	PutDelay        time.Duration // > 0: every Put of the pinset store takes that long (slow state arrival)
 	GateStore       bool          // writes of the pinset store block until RaftPeer.Gate.Release()
 	NetSwitch       bool          // the host gets a connection gater the harness can close (RaftPeer.Net)
+	FaultStore      bool          // RaftPeer.Fault.Arm() makes the next write of the pinset store fail once
+	DefaultFolder   bool          // leave raft data_folder unset: the data lives in <BaseDir>/raft as after "init"
 	NoWait          bool          // do not wait for Ready() of a non-staging peer
 	NoAutoSnapshot  bool          // raft takes snapshots only on request (ForceSnapshot) and on shutdown
 	TweakCluster    func(cfg *ipfscluster.Config)
@@ -61,6 +63,7 @@ type RaftPeer struct {
 	Switch  *SwitchableConsensus
 	Gate    *StoreGate
 	Net     *NetSwitch
+	Fault   *FaultSwitch
 	// ShutdownReturned: Close() saw Cluster.Shutdown return (it did not have to abandon it)
 	ShutdownReturned bool
 	RaftCfg *raft.Config
@@ -150,6 +153,34 @@ type gatedStore struct {
 
 func (s *gatedStore) Put(k ds.Key, v []byte) error { s.g.wait(); return s.Datastore.Put(k, v) }
 func (s *gatedStore) Delete(k ds.Key) error        { s.g.wait(); return s.Datastore.Delete(k) }
+
+// FaultSwitch injects one datastore write error under dsstate.
+type FaultSwitch struct{ armed int32 }
+
+// Arm makes the next Put/Delete fail.
+func (f *FaultSwitch) Arm() { atomic.StoreInt32(&f.armed, 1) }
+
+// Disarm returns whether the fault was still pending (not reached).
+func (f *FaultSwitch) Disarm() bool { return atomic.SwapInt32(&f.armed, 0) == 1 }
+
+type faultyStore struct {
+	ds.Datastore
+	f *FaultSwitch
+}
+
+func (s *faultyStore) Put(k ds.Key, v []byte) error {
+	if atomic.CompareAndSwapInt32(&s.f.armed, 1, 0) {
+		return errors.New("verif: injected datastore write error")
+	}
+	return s.Datastore.Put(k, v)
+}
+
+func (s *faultyStore) Delete(k ds.Key) error {
+	if atomic.CompareAndSwapInt32(&s.f.armed, 1, 0) {
+		return errors.New("verif: injected datastore write error")
+	}
+	return s.Datastore.Delete(k)
+}
 
 // NetSwitch is a connection gater that can cut a host off from everybody.
 type NetSwitch struct {
@@ -250,6 +281,10 @@ func NewRaftPeer(o RaftOpts) (*RaftPeer, error) {
 	if o.PutDelay > 0 {
 		r.Store = &slowStore{Datastore: r.Store, delay: o.PutDelay}
 	}
+	if o.FaultStore {
+		r.Fault = &FaultSwitch{}
+		r.Store = &faultyStore{Datastore: r.Store, f: r.Fault}
+	}
 	if o.GateStore {
 		r.Gate = &StoreGate{held: make(chan struct{}), release: make(chan struct{})}
 		r.Store = &gatedStore{Datastore: r.Store, g: r.Gate}
@@ -270,6 +305,10 @@ func NewRaftPeer(o RaftOpts) (*RaftPeer, error) {
 	r.RaftCfg = RaftConfig(o.Dir)
 	if o.NoAutoSnapshot {
 		r.RaftCfg.RaftConfig.SnapshotThreshold = 1 << 40
+	}
+	if o.DefaultFolder {
+		r.RaftCfg.DataFolder = ""
+		r.RaftCfg.SetBaseDir(o.Dir)
 	}
 	if o.TweakRaft != nil {
 		o.TweakRaft(r.RaftCfg)
